@@ -247,7 +247,7 @@ func vfLevelString(l int) string {
 func (m *vfModel) credentialClaims(ctx *vfReqCtx) []vfClaim {
 	var out []vfClaim
 	if ctx.req.Cert != nil && !ctx.req.NoTLS {
-		if a := m.artByCert(ctx.req.Cert); a != nil && a.Forged == "" {
+		if a := m.artByCert(ctx.req.Cert); a != nil && a.Forged == "" && !containsStr(m.w.cfg.DenyKeys, a.KeyName) {
 			switch a.Kind {
 			case "usercert":
 				out = append(out, vfClaim{AuthTypeKeymasterX509, a.Subject})
